@@ -136,6 +136,89 @@ fn build_recursion(inner: &Circ<PC>, cfg: &CfgSpec, dummy: bool) -> Result<Circ<
     }
 }
 
+
+/// a lookup circuit with tables of the given sizes and the given number of lookups into each: tables
+/// spanning several LookupTableGate rows, lookups spanning several LookupGate rows, several tables.
+/// Input 0 looks up scattered entries, input 1 the LAST entry of every table (and its neighbours).
+fn build_lookups<C: GenericConfig<D, F = F>>(tables: &[usize], nlook: &[usize], cfg: &CfgSpec) -> Result<Circ<C>, String> {
+    let res = guarded(|| {
+        let mut b = CircuitBuilder::<F, D>::new(cfg.config());
+        let mut xs: Vec<(usize, Target)> = vec![];
+        let mut outs = vec![];
+        for (t, &n) in tables.iter().enumerate() {
+            let inps: Vec<u16> = (0..n as u16).collect();
+            let vals: Vec<u16> = inps.iter().map(|&i| ((i as u32 * i as u32 * 7 + 3 * t as u32 + 11) & 0xFFFF) as u16).collect();
+            let id = b.add_lookup_table_from_table(&inps, &vals);
+            for _ in 0..nlook[t] {
+                let x = b.add_virtual_target();
+                outs.push(b.add_lookup_from_index(x, id));
+                xs.push((n, x));
+            }
+        }
+        let sum = b.add_many(outs.clone());
+        let mut pis = outs.clone();
+        pis.truncate(6);
+        pis.push(sum);
+        b.register_public_inputs(&pis);
+        let data = b.build::<C>();
+        let mut pws = vec![];
+        for k in 0..2usize {
+            let mut pw = PartialWitness::new();
+            for (j, (n, x)) in xs.iter().enumerate() {
+                let v = if k == 0 { (j * 5 + 1) % n } else { (n - 1 + n - (j % 3)) % n };
+                pw.set_target(*x, F::from_canonical_usize(v)).map_err(|e| e.to_string())?;
+            }
+            pws.push(pw);
+        }
+        let mut watch = outs;
+        watch.push(sum);
+        Ok::<_, String>((data, pws, watch))
+    });
+    match res {
+        Ok(Ok((data, pws, watch))) => Ok(Circ { data, pws, watch, label: format!("lookups{tables:?}x{nlook:?}") }),
+        Ok(Err(e)) => Err(format!("build_failed: {e}")),
+        Err(p) => Err(format!("build_failed: panic {p}")),
+    }
+}
+
+fn distinct2<T: PartialEq>(v: &[T]) -> bool {
+    v.iter().any(|a| *a != v[0])
+}
+
+/// for every field of the circuit data that is a pair / list of indices (or of values an exchange or a
+/// truncation could hide in): does THIS circuit hold two different values there?
+fn field_witness<C: GenericConfig<D, F = F>>(d: &CircuitData<F, C, D>) -> Value {
+    let po = &d.prover_only;
+    let cm = &d.common;
+    let cf = &cm.config;
+    let fc = &cf.fri_config;
+    let sel = plonky2::verif_exports::selector_indices(&cm.selectors_info);
+    let grp = plonky2::verif_exports::selector_groups(&cm.selectors_info);
+    let adj = |v: &[usize]| v.windows(2).all(|w| w[0] != w[1]);
+    json!({
+        "prover_only.lookup_rows: (last_lu_gate, last_lut_gate, first_lut_gate) pairwise different": po.lookup_rows.iter().any(|l| l.last_lu_gate != l.last_lut_gate && l.last_lut_gate != l.first_lut_gate && l.last_lu_gate != l.first_lut_gate),
+        "prover_only.lookup_rows: two tables": po.lookup_rows.len() >= 2,
+        "prover_only.lut_to_lookups: two lists of different lengths, one with >= 2 pairs": po.lut_to_lookups.len() >= 2 && po.lut_to_lookups.iter().any(|l| l.len() != po.lut_to_lookups[0].len()) && po.lut_to_lookups.iter().any(|l| l.len() >= 2),
+        "prover_only.lookups span more than one LookupGate row": po.lookup_rows.iter().any(|l| l.last_lut_gate - l.last_lu_gate >= 2),
+        "prover_only.generator_indices_by_watches: a list with two different indices": po.generator_indices_by_watches.values().any(|v| distinct2(v)),
+        "prover_only.public_inputs: two different targets": distinct2(&po.public_inputs),
+        "prover_only.representative_map: neither identity nor constant": distinct2(&po.representative_map) && po.representative_map.iter().enumerate().any(|(i, r)| i != *r),
+        "prover_only.sigmas: two different rows": distinct2(&po.sigmas),
+        "prover_only.fft_root_table: several levels": po.fft_root_table.as_ref().map(|t| t.len() >= 2).unwrap_or(false),
+        "common.selectors_info.selector_indices: two different values": distinct2(sel),
+        "common.selectors_info.groups: two groups, start != end": grp.len() >= 2 && grp.iter().any(|g| g.start != g.end),
+        "common.fri_params.reduction_arity_bits: two different arities": distinct2(&cm.fri_params.reduction_arity_bits),
+        "common.k_is: different values": distinct2(&cm.k_is),
+        "common.luts: two different tables, entries with input != output": cm.luts.len() >= 2 && cm.luts[0] != cm.luts[1] && cm.luts.iter().any(|t| t.iter().any(|(a, b)| a != b)),
+        "common scalars adjacent in the encoding differ (quotient_degree_factor, num_gate_constraints, num_constants, num_public_inputs)": adj(&[cm.quotient_degree_factor, cm.num_gate_constraints, cm.num_constants, cm.num_public_inputs]),
+        "common scalars adjacent in the encoding differ (num_partial_products, num_lookup_polys, num_lookup_selectors)": adj(&[cm.num_partial_products, cm.num_lookup_polys, cm.num_lookup_selectors]) && cm.num_lookup_polys > 0,
+        "config scalars adjacent in the encoding differ (num_wires .. max_quotient_degree_factor)": adj(&[cf.num_wires, cf.num_routed_wires, cf.num_constants, cf.security_bits, cf.num_challenges, cf.max_quotient_degree_factor]),
+        "fri_config scalars adjacent in the encoding differ (rate_bits, cap_height, proof_of_work_bits / num_query_rounds)": adj(&[fc.rate_bits, fc.cap_height, fc.proof_of_work_bits as usize]) && fc.num_query_rounds != fc.proof_of_work_bits as usize,
+        "fri_params: degree_bits differs from every arity": cm.fri_params.reduction_arity_bits.iter().all(|a| *a != cm.fri_params.degree_bits) && !cm.fri_params.reduction_arity_bits.is_empty(),
+        "verifier_only.constants_sigmas_cap: two different digests": distinct2(&d.verifier_only.constants_sigmas_cap.0),
+    })
+}
+
 // ---------------------------------------------------------------------------------------------
 // checks
 // ---------------------------------------------------------------------------------------------
@@ -145,8 +228,27 @@ struct Report {
     nfail: usize,
     flip: Option<String>,
     flip_in: Option<String>,
+    /// seeded-defect canary: every restored prover data has first_lut_gate / last_lut_gate exchanged
+    swap_lookup_rows: bool,
 }
 impl Report {
+    fn seed_swap<C: GenericConfig<D, F = F>>(&self, po: &mut ProverOnlyCircuitData<F, C, D>) {
+        if self.swap_lookup_rows {
+            for lw in po.lookup_rows.iter_mut() {
+                std::mem::swap(&mut lw.first_lut_gate, &mut lw.last_lut_gate);
+            }
+        }
+    }
+    /// field-by-field comparison of the index-carrying prover fields (localises a decode difference)
+    fn prover_fields<C: GenericConfig<D, F = F>>(&mut self, what: &str, d: &ProverOnlyCircuitData<F, C, D>, o: &ProverOnlyCircuitData<F, C, D>) {
+        let rows = |p: &ProverOnlyCircuitData<F, C, D>| p.lookup_rows.iter().map(|l| (l.last_lu_gate, l.last_lut_gate, l.first_lut_gate)).collect::<Vec<_>>();
+        self.check("decode", &format!("{what}/lookup_rows-eq"), rows(d) == rows(o), json!({"decoded": rows(d), "original": rows(o)}));
+        self.check("decode", &format!("{what}/lut_to_lookups-eq"), d.lut_to_lookups == o.lut_to_lookups, json!(null));
+        self.check("decode", &format!("{what}/generator_indices_by_watches-eq"), d.generator_indices_by_watches == o.generator_indices_by_watches, json!(null));
+        self.check("decode", &format!("{what}/public_inputs-eq"), d.public_inputs == o.public_inputs, json!(null));
+        self.check("decode", &format!("{what}/representative_map-eq"), d.representative_map == o.representative_map, json!(null));
+        self.check("decode", &format!("{what}/sigmas-subgroup-roots-eq"), d.sigmas == o.sigmas && d.subgroup == o.subgroup && d.fft_root_table == o.fft_root_table, json!(null));
+    }
     /// class: "decode" (decoded value / re-encoding), "cross" (acceptance), "digest", "witness"
     fn check(&mut self, class: &str, what: &str, ok: bool, detail: Value) {
         if !ok {
@@ -306,6 +408,9 @@ fn battery<C: GenericConfig<D, F = F> + 'static>(c: &Circ<C>, s: &Sers, rep: &mu
     sizes["prover_only"] = json!(po_bytes.len());
     match flat(gd(|| ProverOnlyCircuitData::<F, C, D>::from_bytes(&rep.corrupt_in("ProverOnlyCircuitData", &po_bytes), s.ws, &data.common))) {
         Ok(d) => {
+            let mut d = d;
+            rep.seed_swap(&mut d);
+            rep.prover_fields("ProverOnlyCircuitData", &d, &data.prover_only);
             rep.check("decode", "ProverOnlyCircuitData/eq", d == data.prover_only, json!(null));
             let re = flat(gd(|| d.to_bytes(s.ws, &data.common))).unwrap_or_default();
             rep.same_bytes("ProverOnlyCircuitData", &po_bytes, re);
@@ -316,6 +421,8 @@ fn battery<C: GenericConfig<D, F = F> + 'static>(c: &Circ<C>, s: &Sers, rep: &mu
     sizes["full"] = json!(full_bytes.len());
     let full_restored = match flat(gd(|| CircuitData::<F, C, D>::from_bytes(&rep.corrupt_in("CircuitData", &full_bytes), s.gs, s.ws))) {
         Ok(d) => {
+            let mut d = d;
+            rep.seed_swap(&mut d.prover_only);
             rep.check("decode", "CircuitData/eq", d == *data, json!({"common": d.common == data.common, "prover_only": d.prover_only == data.prover_only, "verifier_only": d.verifier_only == data.verifier_only}));
             let re = flat(gd(|| d.to_bytes(s.gs, s.ws))).unwrap_or_default();
             rep.same_bytes("CircuitData", &full_bytes, re);
@@ -334,6 +441,8 @@ fn battery<C: GenericConfig<D, F = F> + 'static>(c: &Circ<C>, s: &Sers, rep: &mu
         sizes["prover"] = json!(p_bytes.len());
         match flat(gd(|| ProverCircuitData::<F, C, D>::from_bytes(&rep.corrupt_in("ProverCircuitData", &p_bytes), s.gs, s.ws))) {
             Ok(d) => {
+                let mut d = d;
+                rep.seed_swap(&mut d.prover_only);
                 // no PartialEq on ProverCircuitData: field-wise, against the ORIGINAL
                 rep.check("decode", "ProverCircuitData/eq", d.common == data.common && d.prover_only == data.prover_only, json!(null));
                 let re = flat(gd(|| d.to_bytes(s.gs, s.ws))).unwrap_or_default();
@@ -781,7 +890,8 @@ fn replay_history<C: GenericConfig<D, F = F> + 'static>(c: &Circ<C>, s: &Sers, o
 }
 
 fn run_circuit<C: GenericConfig<D, F = F> + 'static>(c: &Circ<C>, s: &Sers, line: &Value, args: &[String]) -> Value {
-    let mut rep = Report { flip: opt(args, "--flip").map(|x| x.to_string()), flip_in: opt(args, "--flip-in").map(|x| x.to_string()), ..Default::default() };
+    let mut rep = Report { flip: opt(args, "--flip").map(|x| x.to_string()), flip_in: opt(args, "--flip-in").map(|x| x.to_string()),
+                           swap_lookup_rows: args.iter().any(|a| a == "--swap-lookup-rows"), ..Default::default() };
     let flip_hist = args.iter().any(|a| a == "--flip-history");
     let bat = battery(c, s, &mut rep);
     let mut gens: Vec<String> = c.data.prover_only.generators.iter().map(|g| g.0.id()).collect();
@@ -793,6 +903,7 @@ fn run_circuit<C: GenericConfig<D, F = F> + 'static>(c: &Circ<C>, s: &Sers, line
         "degree_bits": c.data.common.degree_bits(),
         "gates": c.data.common.gates.iter().map(|g| g.0.id()).collect::<Vec<_>>(),
         "generators": gens,
+        "field_witness": field_witness(&c.data),
         "battery": bat,
     });
     let mut hres = vec![];
@@ -849,6 +960,21 @@ fn replay(args: &[String]) -> anyhow::Result<()> {
             match b {
                 Ok(c) => run_circuit(&c, &sers, &line, args),
                 Err(why) => json!({"skipped": why}),
+            }
+        } else if kind == "lookups" {
+            let tables: Vec<usize> = serde_json::from_value(line["tables"].clone())?;
+            let nlook: Vec<usize> = serde_json::from_value(line["nlook"].clone())?;
+            if cfg.keccak {
+                let sers = Sers { name: "ext", gs: &g4, ws: &w4 };
+                match build_lookups::<KC>(&tables, &nlook, &cfg) {
+                    Ok(c) => run_circuit(&c, &sers, &line, args),
+                    Err(why) => json!({"skipped": why}),
+                }
+            } else {
+                match build_lookups::<PC>(&tables, &nlook, &cfg) {
+                    Ok(c) => run_circuit(&c, &sers, &line, args),
+                    Err(why) => json!({"skipped": why}),
+                }
             }
         } else if kind == "prog" {
             let mut b = build_prog::<PC>(&prog, &cfg, &classes, &mut r, false);
